@@ -170,6 +170,53 @@ pub fn judge_c01(p: &Prob, ss: &SettingsSpec, r: &Run, bound: f64) -> CaseResult
     Ok(())
 }
 
+/// the documented (in)feasibility-certificate test, evaluated at the solver's scale from the returned vectors:
+/// with z_ret = e.z/(kappa c) the test reads  kappa c b'z < -tol_abs  and
+/// kappa ||A'z|| / max(1, kappa ||z||) < tol_rel * kappa c |b'z|   (dual case analogously)
+#[allow(clippy::too_many_arguments)]
+pub fn certificate_tests(pinf: bool, p: &Prob, r: &Run, ev: &KktEval, skip: &[bool], kappa: f64, tol_abs: f64, tol_rel: f64, prefix: &str) -> CaseResult {
+    let c = r.equil_c;
+    if pinf {
+        let (mz, cz) = worst_margin(&p.cones, &r.z, true, skip);
+        ensure!(mz >= -1e-9, &format!("{}pinf-z-outside-dual-cone", prefix), "cone #{} ({}) margin {:e} z={:?}", cz, p.cones[cz].tag(), mz, r.z);
+        ensure!(ev.btz < 0.0, &format!("{}pinf-btz-not-negative", prefix), "b'z = {}", ev.btz);
+        let dot_bz = kappa * c * ev.btz;
+        let res = kappa * ev.norm_atz / f64::max(1.0, kappa * ev.normz);
+        let abs = kappa * round_allow(ev.terms, ev.mag_atz) / f64::max(1.0, kappa * ev.normz);
+        ensure!(dot_bz < -tol_abs * (1.0 - SLACK_REL), &format!("{}pinf-abs-test", prefix), "kappa*c*b'z = {:e} !< -tol_infeas_abs {:e}", dot_bz, tol_abs);
+        ensure!(
+            res < tol_rel * (-dot_bz) * (1.0 + SLACK_REL) + abs,
+            &format!("{}pinf-rel-test", prefix),
+            "kappa*||A'z||/max(1,kappa*||z||) = {:e} !< tol_infeas_rel*|kappa c b'z| = {:e} (kappa {:e} c {:e} z={:?})",
+            res,
+            tol_rel * (-dot_bz),
+            kappa,
+            c,
+            r.z
+        );
+    } else {
+        let (ms, cs) = worst_margin(&p.cones, &r.s, false, skip);
+        ensure!(ms >= -1e-9, &format!("{}dinf-s-outside-cone", prefix), "cone #{} ({}) margin {:e} s={:?}", cs, p.cones[cs].tag(), ms, r.s);
+        ensure!(ev.qtx < 0.0, &format!("{}dinf-qtx-not-negative", prefix), "q'x = {}", ev.qtx);
+        let dot_qx = kappa * c * ev.qtx;
+        let res1 = c * kappa * ev.norm_px / f64::max(1.0, kappa * ev.normx);
+        let res2 = kappa * ev.norm_axs / f64::max(1.0, kappa * (ev.normx + ev.norms));
+        let res = f64::max(res1, res2);
+        let abs = kappa * round_allow(ev.terms, ev.mag_px + ev.mag_axs) / f64::max(1.0, kappa * ev.normx);
+        ensure!(dot_qx < -tol_abs * (1.0 - SLACK_REL), &format!("{}dinf-abs-test", prefix), "kappa*c*q'x = {:e} !< -tol_infeas_abs {:e}", dot_qx, tol_abs);
+        ensure!(
+            res < tol_rel * (-dot_qx) * (1.0 + SLACK_REL) + abs,
+            &format!("{}dinf-rel-test", prefix),
+            "max(c k||Px||/max(1,k||x||), k||Ax+s||/max(1,k(||x||+||s||))) = {:e} !< {:e} (kappa {:e} c {:e})",
+            res,
+            tol_rel * (-dot_qx),
+            kappa,
+            c
+        );
+    }
+    Ok(())
+}
+
 /// C02: infeasibility verdicts carry a valid certificate, on the user's data, by the documented test
 pub fn judge_c02(p: &Prob, ss: &SettingsSpec, r: &Run, bound: f64) -> CaseResult {
     // right-hand sides above the infinity bound are documented to be capped at it
@@ -205,58 +252,7 @@ pub fn judge_c02(p: &Prob, ss: &SettingsSpec, r: &Run, bound: f64) -> CaseResult
         r.kappa_after,
         tau / kappa
     );
-    let c = r.equil_c;
-    if pinf {
-        let (mz, cz) = worst_margin(&p.cones, &r.z, true, &skip);
-        ensure!(mz >= -1e-9, "pinf-z-outside-dual-cone", "cone #{} ({}) margin {:e} z={:?}", cz, p.cones[cz].tag(), mz, r.z);
-        ensure!(ev.btz < 0.0, "pinf-btz-not-negative", "b'z = {}", ev.btz);
-        // documented test at the solver's scale
-        let dot_bz = kappa * c * ev.btz;
-        let res = kappa * ev.norm_atz / f64::max(1.0, kappa * ev.normz);
-        let abs = kappa * round_allow(ev.terms, ev.mag_atz) / f64::max(1.0, kappa * ev.normz);
-        ensure!(
-            dot_bz < -st.tol_infeas_abs * (1.0 - SLACK_REL),
-            "pinf-abs-test",
-            "kappa*c*b'z = {:e} !< -tol_infeas_abs {:e}",
-            dot_bz,
-            st.tol_infeas_abs
-        );
-        ensure!(
-            res < st.tol_infeas_rel * (-dot_bz) * (1.0 + SLACK_REL) + abs,
-            "pinf-rel-test",
-            "kappa*||A'z||/max(1,kappa*||z||) = {:e} !< tol_infeas_rel*|kappa c b'z| = {:e} (kappa {:e} c {:e} z={:?})",
-            res,
-            st.tol_infeas_rel * (-dot_bz),
-            kappa,
-            c,
-            r.z
-        );
-    } else {
-        let (ms, cs) = worst_margin(&p.cones, &r.s, false, &skip);
-        ensure!(ms >= -1e-9, "dinf-s-outside-cone", "cone #{} ({}) margin {:e} s={:?}", cs, p.cones[cs].tag(), ms, r.s);
-        ensure!(ev.qtx < 0.0, "dinf-qtx-not-negative", "q'x = {}", ev.qtx);
-        let dot_qx = kappa * c * ev.qtx;
-        let res1 = c * kappa * ev.norm_px / f64::max(1.0, kappa * ev.normx);
-        let res2 = kappa * ev.norm_axs / f64::max(1.0, kappa * (ev.normx + ev.norms));
-        let res = f64::max(res1, res2);
-        let abs = kappa * round_allow(ev.terms, ev.mag_px + ev.mag_axs) / f64::max(1.0, kappa * ev.normx);
-        ensure!(
-            dot_qx < -st.tol_infeas_abs * (1.0 - SLACK_REL),
-            "dinf-abs-test",
-            "kappa*c*q'x = {:e} !< -tol_infeas_abs {:e}",
-            dot_qx,
-            st.tol_infeas_abs
-        );
-        ensure!(
-            res < st.tol_infeas_rel * (-dot_qx) * (1.0 + SLACK_REL) + abs,
-            "dinf-rel-test",
-            "max(c k||Px||/max(1,k||x||), k||Ax+s||/max(1,k(||x||+||s||))) = {:e} !< {:e} (kappa {:e} c {:e})",
-            res,
-            st.tol_infeas_rel * (-dot_qx),
-            kappa,
-            c
-        );
-    }
+    certificate_tests(pinf, p, r, &ev, &skip, kappa, st.tol_infeas_abs, st.tol_infeas_rel, "")?;
     Ok(())
 }
 
@@ -345,6 +341,14 @@ pub fn judge_c03(p: &Prob, ss: &SettingsSpec, r: &Run, bound: f64) -> CaseResult
             ev.gap_abs,
             ev.gap_rel
         );
+    }
+    if matches!(r.status, SolverStatus::AlmostPrimalInfeasible | SolverStatus::AlmostDualInfeasible) {
+        // with the observer's final kappa the documented reduced test can be re-evaluated in full
+        if let Some(last) = r.iters.last() {
+            if last.kappa.is_finite() && last.kappa > 0.0 && (last.kappa / last.tau - r.info.ktratio).abs() <= 1e-9 * r.info.ktratio.abs() {
+                certificate_tests(r.status == SolverStatus::AlmostPrimalInfeasible, p, r, &ev, &skip, last.kappa, st.reduced_tol_infeas_abs, st.reduced_tol_infeas_rel, "almost-")?;
+            }
+        }
     }
     if r.status == SolverStatus::AlmostPrimalInfeasible {
         ensure!(ev.btz < 0.0, "almostpinf-btz-not-negative", "b'z={}", ev.btz);
